@@ -74,3 +74,10 @@ TEXT.update({
         'ref': 'DESIGN.md section 6 C09', 'note': _NOTE_COMMON + ' The valid-file half covers only documents the model generates (it cannot vouch for arbitrary real-world exports).',
         'technique': 'deterministic simulation with fault injection on the read seam: SimFS stored-byte corruption between write and read, foreign-writer stub, infoset refinement check'},
 })
+
+TEXT.update({
+    'C20': {
+        'level': 'Real OS threads run generated build-validate-serialise programs on their own documents; a baton scheduler driven by sys.settrace line events decides who runs. The single-pre-emption family named by the property (thread A parked at its k-th library line, B runs to completion, A resumes) is sampled in quick (half of the k inside class-level code) and swept completely for every sampled program pair in thorough; plus seeded PCT-style multi-switch schedules. Per thread the outcomes must equal those of the program alone in a cold process; shared attribute tables and a canary must equal the sequential run. Every schedule executes in a fresh fork of the cold zygote, so who fills the lazy tables first is part of the schedule.',
+        'ref': 'DESIGN.md section 6 C20, section 3.6', 'note': _NOTE_COMMON + ' GIL threads, line granularity; C-level re-entrancy inside xml.etree is not explored.',
+        'technique': 'deterministic simulation of thread schedules: baton-passed real threads, settrace line events as pre-emption points, complete single-pre-emption sweep per program pair + seeded multi-switch search, cold fork per schedule'},
+})
